@@ -5,6 +5,7 @@ from contextlib import ExitStack
 
 import pyccolo as pyc
 import pyccolo.emit_event as ee
+from swread import read_switches, reset_switches
 
 
 def classify(x):
@@ -101,7 +102,7 @@ def run_case(case, ci):
         res["exc"] = type(e).__name__
     res["rec"] = list(rec)
     res["log"] = log
-    res["flags"] = [ee._allow_event_handling, ee._allow_reentrant_event_handling]
+    res["flags"] = read_switches()
     res["stack"] = len(ee._TRACER_STACK)
     for t in tracers:
         type(t).clear_instance()
